@@ -163,12 +163,12 @@ def _inv_affine(n0: int, n1: int, d0: int) -> Tuple[List[int], List[int]]:
 def ratfunc(r: random.Random, itype: str, ptype: str, k: int, lok: str, hik: str) -> J:
     bits = bits_for(itype, k)
     b = breakpoints(r, itype, bits, 2, integral=(k % 2 == 0))
-    form = k % 6
+    form = k % 7
     lo_l, hi_l = lim(b[0], lok, k % 2 == 1), lim(b[1], hik, k % 2 == 0)
     sc: J = {"lo": lo_l, "hi": hi_l}
     m: J = {"cat": "RAT-FUNC", "i2p": {"scales": [sc]}}
     variant = ["affine+inverse", "quadratic", "linear/linear", "no-denominator", "affine-no-p2i",
-               "affine+inverse"][form]
+               "affine+inverse", "moebius+inverse"][form]
     if form in (0, 4, 5):
         n1, d0 = [(2, 1), (1, 1), (-3, 1), (1, 2), (3, 1), (-1, 1), (5, 2), (1, 10)][(k // 6) % 8]
         n0 = OFFSETS[(k // 6) % len(OFFSETS)]
@@ -183,6 +183,27 @@ def ratfunc(r: random.Random, itype: str, ptype: str, k: int, lok: str, hik: str
         sc["num"] = [OFFSETS[k % len(OFFSETS)], [1, -2, 3][k % 3], [1, -1, 2][(k // 3) % 3]]
         sc["den"] = [[1], [2], [10]][(k // 6) % 3]
         m["p2i"] = {"scales": [{"num": [1, 1, 1], "den": [2]}]}
+    elif form == 6:
+        # y = (n0 + n1 x)/(d0 + d1 x), pole outside of the domain, with its exact inverse
+        # x = (n0 - d0 y)/(-n1 + d1 y): numerator AND denominator have two coefficients
+        lo, hi = domain(itype, bits)
+        n0, n1 = [(100, 3), (7, -2), (-40, 5)][(k // 7) % 3]
+        d0, d1 = (hi + 4 + (k % 3), 1) if k % 2 else (-(lo - 6), 1)
+        if n1 * d0 - n0 * d1 == 0:
+            n0 += 1
+        sc["num"], sc["den"] = [n0, n1], [d0, d1]
+        # the inverse has a pole at y = n1/d1 (the asymptote, never an image): its scale is
+        # limited to the images of the internal domain, as a describer would do
+        ya, yb = Fraction(n0 + n1 * lo, d0 + d1 * lo), Fraction(n0 + n1 * hi, d0 + d1 * hi)
+        ylo, yhi = (ya, yb) if ya <= yb else (yb, ya)
+        if ptype in INTS:
+            pl, ph = int(ylo) - 1, int(yhi) + 1
+            if pl <= Fraction(n1, d1) <= ph:   # keep the pole outside
+                pl, ph = (int(Fraction(n1, d1)) + 1, ph) if ya > Fraction(n1, d1) else (pl, int(Fraction(n1, d1)) - 1)
+        else:
+            pl, ph = float(ylo), float(yhi)
+        m["p2i"] = {"scales": [{"lo": (pl, "CLOSED"), "hi": (ph, "CLOSED"),
+                                "num": [n0, -d0], "den": [-n1, d1]}]}
     elif form == 2:
         # (n0 + n1 x) / (d0 + d1 x) with a pole outside of the sampled domain
         lo, hi = domain(itype, bits)
